@@ -1,4 +1,4 @@
-import PilotaModel.Lemmas.IdlConst
+import PilotaModel.Lemmas.IdlConst2
 /-
   C15: `const_rt` — constant values are read back from every rendering (recursion through list and
   map literals by well-founded recursion on the value).
@@ -6,7 +6,8 @@ import PilotaModel.Lemmas.IdlConst
 namespace Pilota.Idl
 
 theorem elemFollow_close {c : Char} (hc : c = ']' ∨ c = '}') (R : List Char) : ElemFollow (c :: R) ∧ Sep (c :: R) := by
-  rcases hc with h | h <;> subst h <;> exact ⟨⟨by rw [NB, hdP_cons]; decide, by rw [NoSepStart, hdP_cons]; decide, by rw [hdP_cons]; decide⟩, by rw [Sep, hdP_cons]; decide⟩
+  rcases hc with h | h <;> subst h <;> exact ⟨⟨by rw [NB, hdP_cons]; decide, by rw [NoSepStart, hdP_cons]; decide,
+    fun b hb => pathStop_of hb (by rw [NB, hdP_cons]; decide) (by rw [hdP_cons]; decide)⟩, by rw [Sep, hdP_cons]; decide⟩
 
 theorem const_rt : (c : ConstValue) → c.wf = true → c.supported = true → (d : Nat) → c.depth < d → (l : Layout) →
     (r : List Char) → ConstFollow c r → ConstValue.parse d ((rConst c l).1 ++ r) = .ok c r
@@ -93,7 +94,43 @@ theorem const_rt : (c : ConstValue) → c.wf = true → c.supported = true → (
         · subst h; decide) (by simp))),
       alt_cons_of_err (pmap_of_err hdbl)]
     exact alt_cons_of_ok (pmap_of_ok hint)
-  | .double t, _, hs, _, _, _, _, _ => by simp [ConstValue.supported] at hs
+  | .double t, hw, _, d + 1, hd, l, r, hf => by
+    simp only [ConstValue.wf] at hw
+    simp only [ConstValue.depth] at hd
+    simp only [rConst, rLit_fst]
+    obtain ⟨c0, x0, e, hc0⟩ := double_head hw
+    have hdr := double_rt hw hf (d := d + 1) hd
+    have hq : c0 ≠ '\'' ∧ c0 ≠ '"' ∧ c0 ≠ 't' ∧ c0 ≠ 'f' ∧ isIdentStart c0 = false := by
+      rcases hc0 with h | h | h | h
+      · subst h; decide
+      · subst h; decide
+      · subst h; decide
+      · refine ⟨?_, ?_, ?_, ?_, ?_⟩
+        · intro e'; subst e'; revert h; decide
+        · intro e'; subst e'; revert h; decide
+        · intro e'; subst e'; revert h; decide
+        · intro e'; subst e'; revert h; decide
+        · cases hi : isIdentStart c0 with
+          | false => rfl
+          | true =>
+            exfalso
+            simp only [isIdentStart, Bool.or_eq_true, beq_iff_eq] at hi
+            rcases hi with hi | hi
+            · simp only [isDecDigit, Char.isDigit, Char.isAlpha, Char.isUpper, Char.isLower, Bool.and_eq_true,
+                Bool.or_eq_true, decide_eq_true_eq] at h hi
+              have h1 := UInt32.le_iff_toNat_le.mp h.1; have h2 := UInt32.le_iff_toNat_le.mp h.2
+              rcases hi with ⟨a, b⟩ | ⟨a, b⟩ <;>
+                (have a' := UInt32.le_iff_toNat_le.mp a; have b' := UInt32.le_iff_toNat_le.mp b; simp at h1 h2 a' b'; omega)
+            · subst hi; revert h; decide
+    unfold ConstValue.parse
+    rw [e] at hdr ⊢
+    rw [List.cons_append] at hdr ⊢
+    rw [alt_cons_of_err (pmap_of_err (literal_err_hd (by
+        simp only [hdP_cons, Bool.and_eq_true, bne_iff_ne, ne_eq]; exact ⟨hq.1, hq.2.1⟩))),
+      alt_cons_of_err (show keyword _ _ _ = .err from andThen_of_err (tag_cons_ne (Ne.symm hq.2.2.1))),
+      alt_cons_of_err (show keyword _ _ _ = .err from andThen_of_err (tag_cons_ne (Ne.symm hq.2.2.2.1))),
+      alt_cons_of_err (pmap_of_err (path_err_hd (by simp only [hdP_cons, hq.2.2.2.2]; rfl) (by simp)))]
+    exact alt_cons_of_ok (pmap_of_ok hdr)
   | .list xs, hw, hs, d + 1, hd, l, r, _ => by
     simp only [ConstValue.wf] at hw
     simp only [ConstValue.supported] at hs
@@ -114,13 +151,13 @@ theorem const_rt : (c : ConstValue) → c.wf = true → c.supported = true → (
       rConstElem Eq
       (fun x => x.wf = true ∧ x.supported = true ∧
         ∀ l r, ConstFollow x r → ConstValue.parse (d' + 1) ((rConst x l).1 ++ r) = .ok x r)
-      BT (fun R => hdP isConstStart R = true) ']'
+      BT ElemFollow ']'
       (by
         intro x last l bl R hx hbl hlast hmid
         have hR : ElemFollow R ∧ (last = true → Sep R) := by
           cases last with
           | true => obtain ⟨R', rfl⟩ := hlast rfl; exact ⟨(elemFollow_close (Or.inl rfl) R').1, fun _ => (elemFollow_close (Or.inl rfl) R').2⟩
-          | false => exact ⟨elemFollow_of_start (hmid rfl), fun h => by cases h⟩
+          | false => exact ⟨hmid rfl, fun h => by cases h⟩
         refine ⟨x, [], rfl, BT.nil, ?_, ?_⟩
         · have := (rConst_start hx.1 hx.2.1 l ([] : List Char)).2
           simp only [rConstElem, rSeq_fst, List.length_append, List.length_nil]
@@ -130,7 +167,7 @@ theorem const_rt : (c : ConstValue) → c.wf = true → c.supported = true → (
       (by
         intro y last l R hy
         simp only [rConstElem, rSeq_fst, List.append_assoc]
-        exact (rConst_start hy.1 hy.2.1 l _).1)
+        exact elemFollow_of_start hy.1 hy.2.1 l _)
       (by
         intro bl R hbl
         rw [andThen_optBlank hbl (by rw [NB, hdP_cons]; decide)]
@@ -177,13 +214,13 @@ theorem const_rt : (c : ConstValue) → c.wf = true → c.supported = true → (
       (fun kv => kv.1.wf = true ∧ kv.1.supported = true ∧ kv.2.wf = true ∧ kv.2.supported = true ∧
         (∀ l r, ConstFollow kv.1 r → ConstValue.parse (d' + 1) ((rConst kv.1 l).1 ++ r) = .ok kv.1 r) ∧
         (∀ l r, ConstFollow kv.2 r → ConstValue.parse (d' + 1) ((rConst kv.2 l).1 ++ r) = .ok kv.2 r))
-      BT (fun R => hdP isConstStart R = true) '}'
+      BT ElemFollow '}'
       (by
         intro x last l bl R hx hbl hlast hmid
         have hR : ElemFollow R ∧ (last = true → Sep R) := by
           cases last with
           | true => obtain ⟨R', rfl⟩ := hlast rfl; exact ⟨(elemFollow_close (Or.inr rfl) R').1, fun _ => (elemFollow_close (Or.inr rfl) R').2⟩
-          | false => exact ⟨elemFollow_of_start (hmid rfl), fun h => by cases h⟩
+          | false => exact ⟨hmid rfl, fun h => by cases h⟩
         refine ⟨x, [], rfl, BT.nil, ?_, ?_⟩
         · have := (rConst_start hx.1 hx.2.1 l ([] : List Char)).2
           simp only [rConstPair, rSeq_fst, List.length_append, List.length_nil]
@@ -193,7 +230,7 @@ theorem const_rt : (c : ConstValue) → c.wf = true → c.supported = true → (
       (by
         intro y last l R hy
         simp only [rConstPair, rSeq_fst, List.append_assoc]
-        exact (rConst_start hy.1 hy.2.1 l _).1)
+        exact elemFollow_of_start hy.1 hy.2.1 l _)
       (by
         intro bl R hbl
         rw [andThen_optBlank hbl (by rw [NB, hdP_cons]; decide)]
